@@ -64,7 +64,8 @@ class _FuseReluClipBase(RewriteRuleClassBase, abc.ABC):
 
     def extract_min_max(self, node: ir.Node):
         # Infer dtype from node first input
-        dtype = node.inputs[0].dtype.numpy()
+        dtype = node.inputs[0].dtype
+        dtype = dtype.numpy() if dtype is not None else None
         min_clip, max_clip = None, None
 
         if len(node.inputs) > 1:
@@ -111,6 +112,10 @@ class _FuseReluClipBase(RewriteRuleClassBase, abc.ABC):
 
             if ir.convenience.get_const_tensor(m) is None:
                 return check_result.fail(f"{m.name} is not a constant.")
+
+        if first_clip_node.inputs[0].dtype is None:
+            # The fused bounds are created with the element type of the clipped value.
+            return check_result.fail("The element type of the Clip input is unknown.")
 
         return check_result
 
